@@ -246,6 +246,10 @@ func runLint(runner *Runner, rslv resolver.Resolver) error {
 			writeln(red, err.Error())
 			return ErrExit
 		}
+		// On JSON mode parse errors are reported in the document instead of an error
+		if len(result.ParseErrors) > 0 {
+			return ErrExit
+		}
 	}
 
 	write(red, ":fire:%d errors, ", result.Errors)
